@@ -23,7 +23,9 @@ Val(k) == CASE k = 1 -> <<>> [] k = 2 -> <<1>> [] k = 3 -> <<2>> [] k = 4 -> Pow
 SliceLens == <<0, 1, 2, 3, 7, 20, 30, 61, 62, 63>>
 ResizeLens == <<0, 1, 2, 30, 60, 61, 62, 63, 64>>
 OpSeq == <<"new", "push", "push", "pop", "extend", "resize", "from", "normalize", "add_small", "mul_small",
-           "from_u64", "clone", "swap", "compare", "eq", "is_normalized", "is_empty", "hi64", "push", "extend">>
+           "from_u64", "clone", "swap", "compare", "eq", "is_normalized", "is_empty", "hi64", "push", "extend",
+           \* more weight on clone / small change / comparison, so that equal-length vectors with different contents are compared
+           "clone", "add_small", "eq", "compare", "clone", "mul_small", "compare", "eq">>
 Draw == [op |-> RandomElement(1..Len(OpSeq)), v |-> RandomElement(1..8), sl |-> RandomElement(1..Len(SliceLens)),
          sb |-> RandomElement(1..8), m |-> RandomElement(1..Len(ResizeLens))]
 SliceOf(r) == [k \in 1..SliceLens[r.sl] |-> Val(((r.sb + k * k) % 8) + 1)]
